@@ -185,14 +185,27 @@ def _default(k):
     return dict(num_os=2, num_processes=2, restrictiveness=5, uniform=False, alpha_H=2.0, alpha_V=2.0, lambda_V=1.0).get(k)
 
 
-def run_params(p, rep, record=True):
+_GEN = [None]
+
+
+def run_params(p, rep, record=True, reuse=False):
+    """reuse=True: generate on ONE long-lived ScenarioGenerator object (the documented class API) that has
+    already produced other scenarios in this process"""
     import nasim
     failed = set()
     if record:
         rep.evaluated()
     try:
         try:
-            scn, lines = traced_call(lambda: nasim.generate_scenario(**p))
+            if reuse:
+                from nasim.scenarios.generator import ScenarioGenerator
+                if _GEN[0] is None:
+                    _GEN[0] = ScenarioGenerator()
+                scn, lines = traced_call(lambda: _GEN[0].generate(**p))
+                if record:
+                    rep.count("generated-on-a-reused-generator-object")
+            else:
+                scn, lines = traced_call(lambda: nasim.generate_scenario(**p))
         except BudgetExceeded:
             raise Failure("C15:termination", f"generate_scenario(**{p}) did not return within {LINE_BUDGET} traced lines")
         except Failure:
@@ -237,9 +250,25 @@ def _shard(shard, seed, tier, n_cases):
     @hypothesis.seed(seed)
     @settings(max_examples=n_cases, deadline=None, database=None, phases=[Phase.generate],
               suppress_health_check=list(HealthCheck))
-    @given(p=strat)
-    def t(p):
+    @given(p=strat, follow=st.integers(0, 7))
+    def t(p, follow):
         run_params(p, rep)
+        if follow <= 2 and p["num_hosts"] <= 20:
+            # the same request again, then a request that differs in ONE count, on a reused generator object
+            run_params(p, rep, reuse=True)
+            q = dict(p)
+            key = ("num_processes", "num_os", "num_services")[follow]
+            q[key] = q.get(key, 2) + 1 if q.get(key, 2) < 3 else q.get(key, 2) - 1
+            for k in ("num_exploits", "num_privescs"):
+                q.pop(k, None)
+            if isinstance(q.get("exploit_probs"), list):
+                q["exploit_probs"] = 0.5
+            if isinstance(q.get("privesc_probs"), list):
+                q["privesc_probs"] = 0.75
+            if q.get("uniform") and q["num_services"] > 8:
+                q["uniform"] = False
+                q.setdefault("alpha_H", 2.0); q.setdefault("alpha_V", 2.0); q.setdefault("lambda_V", 1.0)
+            run_params(q, rep, reuse=True)
     t()
     return rep
 
